@@ -122,6 +122,9 @@ def check_case(case):
         d = tempfile.mkdtemp(prefix="c10-cache-", dir=str(env.scratch()))
         try:
             cache = GreensFunctionCache(d)
+            if len(lv) > 1:
+                # the same levels asked for in ascending order first: another request, whose entry must not answer this one
+                sut.S(q0, z, prof, dom, sorted(lv), cache=cache, **kw)
             sut.S(q0, z, prof, dom, _levels_arg(lv, typ), cache=cache, **kw)
             grid, conc, flx = sut.S(q0, z, prof, dom, _levels_arg(lv, typ), cache=cache, **kw)
         finally:
